@@ -31,7 +31,7 @@ FAMILY = {
     "C11": "Shape",
 }
 # further model families checked under a property: (family, replay key)
-EXTRA_FAMILIES = {"C07": [("Mirror", "Mirror")]}
+EXTRA_FAMILIES = {"C07": [("Mirror", "Mirror")], "C03": [("Boundary", "Boundary")]}
 
 NEGS = {"C06": ["MC_Translate_neg_halo"], "C07": ["MC_Mirror_neg_halo"], "C02": ["MC_Recip_neg_halo"], "C03": ["MC_Conserve_neg_halo"], "C10": ["MC_Levels_neg_cursor", "MC_Levels_neg_flat"], "C11": ["MC_Shape_neg_sym", "MC_Shape_neg_halo"]}
 
@@ -482,6 +482,56 @@ def replay_mirror(chk, rs, c, variants):
                 return
 
 
+def replay_boundary(chk, rs, c, variants):
+    """surface condition (flux at node 0 = prescribed flux / unit impulse at the tower) and radiation condition at the top"""
+    if c["err"] != "none" or c["halo"] != 0 or not c["geom"]["clamped"]:
+        return
+    rng = _rng(c)
+    ny, nx = c["ny"], c["nx"]
+    lv = list(c["lv"])
+    for prof_kind, prec, src_kind in variants:
+        if c["an"]:
+            prof_kind = "const_aniso" if prof_kind in ("mostm", "aniso") else "const"
+        if prec != "double":
+            continue
+        kw = rs.solver_args(c, prof_kind, prec)
+        q = rs.source(c, src_kind, rng, j=rng.integers(ny), i=rng.integers(nx))
+        extra = dict(profile=prof_kind, precision=prec, source=src_kind, q=q.tolist())
+        chk.case((_cfg_key(c), prof_kind, prec, src_kind))
+        _, p, f = rs.solve3(q, kw)
+        if 0 in lv:
+            k = lv.index(0)
+            if c["fp"]:
+                want = np.zeros((ny, nx))
+                want[c["ym"] // c["ay"], c["xm"] // c["ax"]] = 1.0
+            else:
+                want = q
+            if not _cmp(chk, rs, c, "surface_bc", "flux at node 0", f[k], want, prec, "the flux at the surface node is the prescribed surface flux (all modes kept)", **extra):
+                return
+        top = c["nz"] - 1
+        if top in lv and not c["fp"]:
+            k = lv.index(top)
+            u, v, Kx, Ky, Kz = kw["profiles"]
+            dx, dy = kw["domain"][0] / nx, kw["domain"][1] / ny
+            lx = 2 * np.pi * np.fft.fftfreq(nx, d=dx)
+            ly = 2 * np.pi * np.fft.fftfreq(ny, d=dy)
+            LX, LY = np.meshgrid(lx, ly)
+            eig = np.sqrt((Kx[top] * LX**2 + Ky[top] * LY**2 + 1j * (u[top] * LX + v[top] * LY)) / Kz[top] + 0j)
+            P = np.fft.fft2(p[k])
+            Q = np.fft.fft2(f[k])
+            mask = np.ones((ny, nx), dtype=bool)
+            mask[0, 0] = False
+            for kx in c["nyqx"]:
+                mask[:, kx] = False
+            for ky in c["nyqy"]:
+                mask[ky, :] = False
+            sc = max(float(np.max(np.abs(Q))), 1e-300)
+            d = float(np.max(np.abs((Q - Kz[top] * eig * P) * mask))) / sc
+            if d > 1e-8:
+                _viol(chk, rs, c, "top_bc", "at the top node the spectral flux deviates from Kz*beta*concentration by %.3e relative (radiation condition)" % d, **extra)
+                return
+
+
 # ------------------------------------------------------------------------ C10 levels
 
 
@@ -581,7 +631,8 @@ def replay_shape(chk, rs, c, variants):
                     return
 
 
-REPLAYS_BY_FAMILY = {"Mirror": replay_mirror, "AnalyticSym": replay_symmetry, "AnalyticCons": replay_conserve}
+ADVISORY_FAMILIES = {"Boundary"}   # specification growth beyond the listed properties: failures are reported as drift, never as a violation
+REPLAYS_BY_FAMILY = {"Boundary": replay_boundary, "Mirror": replay_mirror, "AnalyticSym": replay_symmetry, "AnalyticCons": replay_conserve}
 REPLAYS = {"C02": replay_recip, "C03": replay_conserve, "C04": replay_linear, "C06": replay_translate, "C07": replay_symmetry, "C10": replay_levels, "C11": replay_shape}
 
 VARIANTS_QUICK = [("most_u", "double", "dense"), ("mostm", "double", "sparse"), ("aniso", "single", "smooth")]
@@ -669,6 +720,10 @@ def run_family(chk, prop, rs, fam, replay, t, variants):
     for c in configs:
         c["lv"] = list(c["lv"])
     n_err = 0
+    main_chk = chk
+    if fam in ADVISORY_FAMILIES:
+        chk = Check(prop)      # a private collector: whatever it finds becomes a drift note of the real check
+        chk._known = []
     for c in configs:
         ok, _ = check_prediction(chk, prop, rs, c, "const" if c["an"] else "most_u")
         if c["err"] != "none":
@@ -682,6 +737,13 @@ def run_family(chk, prop, rs, fam, replay, t, variants):
                     {"kind": "replay_exception", "config": c, "family": fam},
                     klass=dict(rs.classify(c), check="replay_exception"),
                 )
+    if chk is not main_chk:
+        for v in chk.violations[:10]:
+            main_chk.drift_note("advisory family %s (not a listed property): %s" % (fam, v["what"]))
+        main_chk.evaluations += chk.evaluations
+        main_chk.nontrivial |= chk.nontrivial
+        main_chk.extra.setdefault("advisory", {})[fam] = {"cases": chk.evaluations, "failures": len(chk.violations)}
+        chk = main_chk
     chk.extra.setdefault("families", {})[fam] = {"config": cfgname, "configurations_from_tlc": len(configs), "predicted_error": n_err}
     for c in configs[:: max(1, len(configs) // 3)][:3]:
         chk.sample({"family": fam, "config": {k: c[k] for k in ("nx", "ny", "ax", "ay", "halo", "mx", "my", "xm", "ym", "fp", "an", "nz", "lv")}, "predicted": {"err": c["err"], "shape": c["shape"]}})
